@@ -244,6 +244,16 @@ qb_ipcs_destroy(struct qb_ipcs_service *s)
 		if (c == NULL) {
 			continue;
 		}
+		if (c->state == QB_IPCS_CONNECTION_SHUTTING_DOWN) {
+			/*
+			 * Already disconnected: it is only waiting for a
+			 * re-run of connection_closed (a job holds it) or for
+			 * the application to drop its references. Running the
+			 * disconnect again would call connection_closed once
+			 * more and drop a reference that is not ours.
+			 */
+			continue;
+		}
 		qb_ipcs_disconnect(c);
 	}
 	(void)qb_ipcs_us_withdraw(s);
